@@ -980,14 +980,15 @@ impl IoUring {
     }
 
     pub fn get_next_sqe_slot(&mut self) -> Option<*mut IoUringSubmissionQueueEntry> {
-        let next = self.submission_queue.tail + 1;
+        // The indices are free running u32s that wrap around, only ever compare differences
+        let next = self.submission_queue.tail.wrapping_add(1);
         let shift = u32::from(self.flags.contains(IoUringParamFlags::IORING_SETUP_SQE128));
         let head = if self.flags.contains(IoUringParamFlags::IORING_SETUP_SQPOLL) {
             self.submission_queue.acquire_khead()
         } else {
             self.submission_queue.get_khead_relaxed()
         };
-        if next - head <= self.submission_queue.ring_entries {
+        if next.wrapping_sub(head) <= self.submission_queue.ring_entries {
             let index = (self.submission_queue.tail & self.submission_queue.ring_mask) << shift;
             let sqe = unsafe { self.submission_queue.entries.as_ptr().add(index as usize) };
             self.submission_queue.tail = next;
@@ -1007,14 +1008,16 @@ impl IoUring {
                 self.submission_queue.sync_ktail_relaxed();
             }
         }
-        tail - self.submission_queue.get_khead_relaxed()
+        tail.wrapping_sub(self.submission_queue.get_khead_relaxed())
     }
 
     pub fn get_next_cqe(&mut self) -> Option<&IoUringCompletionQueueEntry> {
         let shift = u32::from(self.flags.contains(IoUringParamFlags::IORING_SETUP_CQE32));
         let tail = self.completion_queue.acquire_ktail();
         let head = self.completion_queue.acquire_khead();
-        if tail <= head {
+        // Free running indices, the ring is empty exactly when they are equal,
+        // after the tail has wrapped it is numerically below the head
+        if tail == head {
             return None;
         }
         let ind = ((head & self.completion_queue.ring_mask) << shift) as usize;
